@@ -47,7 +47,7 @@ def AncOK (s : Map DNode) (p : Path) : Prop :=
 def OwnOK (s : Map DNode) (t : Task) : Prop :=
   match t.payload with
   | .nothing => True
-  | .dir => s.get? t.rel = none ∨ s.get? t.rel = some .dir
+  | .dir => s.get? t.rel = none ∨ s.get? t.rel = some .dir ∨ (t.act = .update ∧ ∃ l, s.get? t.rel = some (.symlink l))
   | _ => s.get? t.rel ≠ some .dir
 
 theorem mkdirAll_parent_some {s : Map DNode} {p : Path} (h : AncOK s p) (hp : p ≠ []) :
@@ -84,11 +84,14 @@ theorem performCU_necessary {cfg : Cfg} {w w' : World} {t : Task} (h : performCU
   | nothing => exact Or.inl rfl
   | dir =>
     right
+    have hown := performCU_dir_pre (cfg := cfg) hpl (by unfold performCU; exact h) hp
     simp only [hpl] at h
-    cases hm : mkdirAll w.dst t.rel with
+    cases hm : mkdirAll (dirBase t.act w.dst t.rel) t.rel with
     | none => simp [hm] at h
     | some d =>
-      exact ⟨fun x hx hpx _ => mkdirAll_pre hm x hx hpx, mkdirAll_pre hm t.rel hp (isPrefix_refl _)⟩
+      refine ⟨fun x hx hpx hne => ?_, hown⟩
+      have := mkdirAll_pre hm x hx hpx
+      rwa [dirBase_get?_ne _ _ _ _ hne] at this
   | symlink text =>
     right
     simp only [hpl] at h
@@ -138,11 +141,21 @@ theorem performCU_sufficient {cfg : Cfg} {w : World} {t : Task} (hp : t.rel ≠ 
   | nothing => exact ⟨w, rfl⟩
   | dir =>
     simp only [hpl] at ho ⊢
-    obtain ⟨d, hd⟩ := mkdirAll_some w.dst t.rel (by
+    obtain ⟨d, hd⟩ := mkdirAll_some (dirBase t.act w.dst t.rel) t.rel (by
       intro x hx hpx
       by_cases he : x = t.rel
-      · rw [he]; exact ho
-      · exact ha x hx hpx he)
+      · rw [he]
+        rcases dirBase_get?_self t.act w.dst t.rel with hb | ⟨_, _, hb⟩
+        · rw [hb]
+          rcases ho with ho | ho | ⟨hu, l, hl⟩
+          · exact Or.inl ho
+          · exact Or.inr ho
+          · -- an update over a link: the link is dropped
+            left
+            rw [← hb]
+            simp [dirBase, hu, unlinkLink, hl, Map.get?_erase_same]
+        · exact Or.inl hb
+      · rw [dirBase_get?_ne _ _ _ _ he]; exact ha x hx hpx he)
     exact ⟨_, by rw [hd]; rfl⟩
   | symlink text =>
     simp only [hpl] at ho ⊢
@@ -190,57 +203,138 @@ theorem performCU_sufficient {cfg : Cfg} {w : World} {t : Task} (hp : t.rel ≠ 
 
 /-! ### the state along a path before a task, under any fault plan -/
 
-/-- a path at which every task of `ts` is unfaulted and at most makes a directory keeps its
-    node, except that an absent one may become a directory -/
-theorem foldl_frame_benign (cfg : Cfg) (flt : Faults) (ts : List Task) (st : Exec) (x : Path)
+/-- one task that is unfaulted at `x` and at most makes a directory there: the node at `x` stays, or an absent one
+    becomes a directory, or a SYMLINK is replaced by a directory — by this very task, an `update` with a directory
+    payload at `x` that completed (fix 862af11) -/
+theorem execTask_benign (cfg : Cfg) (flt : Faults) (st : Exec) (t : Task) (x : Path) (hx0 : x ≠ [])
+    (hd : t.act = .delete → isPrefix t.rel x = false)
+    (hb : t.rel = x → faultOf cfg flt t = none ∧ (t.act = .skip ∨ t.payload = .nothing ∨ t.payload = .dir)) :
+    (execTask cfg flt st t).w.dst.get? x = st.w.dst.get? x ∨
+      (st.w.dst.get? x = none ∧ (execTask cfg flt st t).w.dst.get? x = some .dir) ∨
+      ((∃ l, st.w.dst.get? x = some (.symlink l)) ∧ (execTask cfg flt st t).w.dst.get? x = some .dir ∧
+        t.rel = x ∧ t.payload = .dir ∧ t.act = .update ∧
+        (execTask cfg flt st t).b.errors = st.b.errors) := by
+  by_cases hr : t.rel = x
+  · obtain ⟨hf, hben⟩ := hb hr
+    have hnd : t.act ≠ .delete := by
+      intro hdel; have := hd hdel; rw [hr, isPrefix_refl] at this; cases this
+    rcases execTask_cases cfg flt st t with ⟨g, hf', _⟩ | ⟨_, w', hp, he⟩ | ⟨_, _, he⟩
+    · rw [hf] at hf'; cases hf'
+    · rw [he]
+      by_cases hdry : cfg.dryRun = true
+      · rw [perform_dry cfg hdry] at hp; cases hp; exact Or.inl rfl
+      · simp only [Bool.not_eq_true] at hdry
+        by_cases hs : t.act = .skip
+        · rw [perform_skip hs] at hp; cases hp; exact Or.inl rfl
+        · rw [perform_cu hs hnd hdry] at hp
+          rcases hben with h1 | h1 | h1
+          · exact absurd h1 hs
+          · rw [performCU_nothing h1 hp]; exact Or.inl rfl
+          · have hdirx : w'.dst.get? x = some .dir := by
+              rw [← hr]; exact (performCU_dir h1 hp).1 (hr ▸ hx0)
+            rcases performCU_dir_pre h1 hp (hr ▸ hx0) with h2 | h2 | ⟨hu, l, hl⟩
+            · exact Or.inr (Or.inl ⟨hr ▸ h2, hdirx⟩)
+            · left; show w'.dst.get? x = _; rw [hdirx, ← hr, h2]
+            · exact Or.inr (Or.inr ⟨⟨l, hr ▸ hl⟩, hdirx, hr, h1, hu, Book.ok_errors _ _⟩)
+    · rw [he]; exact Or.inl rfl
+  · rcases execTask_frame cfg flt st t x hr hd with h1 | ⟨a, b, _⟩
+    · exact Or.inl h1
+    · exact Or.inr (Or.inl ⟨a, b⟩)
+
+/-- a path at which every task of `ts` is unfaulted and at most makes a directory keeps its node, except that an
+    absent one may become a directory and a symlink may be replaced by one -/
+theorem foldl_frame_benign (cfg : Cfg) (flt : Faults) (ts : List Task) (st : Exec) (x : Path) (hx0 : x ≠ [])
     (h : ∀ t ∈ ts, (t.act = .delete → isPrefix t.rel x = false) ∧
       (t.rel = x → faultOf cfg flt t = none ∧ (t.act = .skip ∨ t.payload = .nothing ∨ t.payload = .dir))) :
     (ts.foldl (execTask cfg flt) st).w.dst.get? x = st.w.dst.get? x ∨
-      (st.w.dst.get? x = none ∧ (ts.foldl (execTask cfg flt) st).w.dst.get? x = some .dir) := by
+      (st.w.dst.get? x = none ∧ (ts.foldl (execTask cfg flt) st).w.dst.get? x = some .dir) ∨
+      ((∃ l, st.w.dst.get? x = some (.symlink l)) ∧ (ts.foldl (execTask cfg flt) st).w.dst.get? x = some .dir) := by
   induction ts generalizing st with
   | nil => exact Or.inl rfl
   | cons t ts ih =>
     rw [List.foldl_cons]
     obtain ⟨hd, hb⟩ := h t (List.mem_cons_self ..)
     have ih' := ih (execTask cfg flt st t) (fun t' ht' => h t' (List.mem_cons_of_mem _ ht'))
-    have step : (execTask cfg flt st t).w.dst.get? x = st.w.dst.get? x ∨
-        (st.w.dst.get? x = none ∧ (execTask cfg flt st t).w.dst.get? x = some .dir) := by
-      by_cases hr : t.rel = x
-      · obtain ⟨hf, hben⟩ := hb hr
-        have hnd : t.act ≠ .delete := by
-          intro hdel; have := hd hdel; rw [hr, isPrefix_refl] at this; cases this
-        rcases execTask_cases cfg flt st t with ⟨g, hf', _⟩ | ⟨_, w', hp, he⟩ | ⟨_, _, he⟩
-        · rw [hf] at hf'; cases hf'
-        · rw [he]
-          by_cases hdry : cfg.dryRun = true
-          · rw [perform_dry cfg hdry] at hp; cases hp; exact Or.inl rfl
-          · simp only [Bool.not_eq_true] at hdry
-            by_cases hs : t.act = .skip
-            · rw [perform_skip hs] at hp; cases hp; exact Or.inl rfl
-            · rw [perform_cu hs hnd hdry] at hp
-              rcases hben with h1 | h1 | h1
-              · exact absurd h1 hs
-              · rw [performCU_nothing h1 hp]; exact Or.inl rfl
-              · unfold performCU at hp
-                simp only [h1] at hp
-                cases hm : mkdirAll st.w.dst t.rel with
-                | none => simp [hm] at hp
-                | some d =>
-                  simp only [hm, Option.map_some, Option.some.injEq] at hp; subst hp
-                  rcases mkdirAll_frame hm x with h2 | ⟨_, _, h3, h4⟩
-                  · exact Or.inl h2
-                  · exact Or.inr ⟨h3, h4⟩
-        · rw [he]; exact Or.inl rfl
-      · rcases execTask_frame cfg flt st t x hr hd with h1 | ⟨a, b, _⟩
-        · exact Or.inl h1
-        · exact Or.inr ⟨a, b⟩
-    rcases step with s1 | ⟨s1, s2⟩
-    · rcases ih' with h2 | ⟨h2, h3⟩
+    -- once a directory, always a directory
+    have stay : (execTask cfg flt st t).w.dst.get? x = some .dir →
+        (ts.foldl (execTask cfg flt) (execTask cfg flt st t)).w.dst.get? x = some .dir := by
+      intro hdir
+      rcases ih' with h2 | ⟨h2, _⟩ | ⟨⟨l, h2⟩, _⟩
+      · rw [h2]; exact hdir
+      · rw [hdir] at h2; cases h2
+      · rw [hdir] at h2; cases h2
+    rcases execTask_benign cfg flt st t x hx0 hd hb with s1 | ⟨s1, s2⟩ | ⟨s1, s2, _⟩
+    · rcases ih' with h2 | ⟨h2, h3⟩ | ⟨⟨l, h2⟩, h3⟩
       · exact Or.inl (h2.trans s1)
-      · exact Or.inr ⟨s1 ▸ h2, h3⟩
-    · rcases ih' with h2 | ⟨h2, _⟩
-      · exact Or.inr ⟨s1, h2.trans s2⟩
-      · rw [s2] at h2; cases h2
+      · exact Or.inr (Or.inl ⟨s1 ▸ h2, h3⟩)
+      · exact Or.inr (Or.inr ⟨⟨l, s1 ▸ h2⟩, h3⟩)
+    · exact Or.inr (Or.inl ⟨s1, stay s2⟩)
+    · exact Or.inr (Or.inr ⟨s1, stay s2⟩)
+
+/-- a link at `x` that the fold turned into a directory was replaced by a task of the fold at `x` that completed -/
+theorem foldl_link_replaced (cfg : Cfg) (flt : Faults) (ts : List Task) (st : Exec) (x : Path) (hx0 : x ≠ [])
+    (h : ∀ t ∈ ts, (t.act = .delete → isPrefix t.rel x = false) ∧
+      (t.rel = x → faultOf cfg flt t = none ∧ (t.act = .skip ∨ t.payload = .nothing ∨ t.payload = .dir)))
+    (hl : ∃ l, st.w.dst.get? x = some (.symlink l))
+    (hfin : (ts.foldl (execTask cfg flt) st).w.dst.get? x = some .dir) :
+    ∃ p1 p2 t, ts = p1 ++ t :: p2 ∧ t.rel = x ∧ t.payload = .dir ∧ t.act = .update ∧
+      (execTask cfg flt (p1.foldl (execTask cfg flt) st) t).b.errors = (p1.foldl (execTask cfg flt) st).b.errors := by
+  induction ts generalizing st with
+  | nil =>
+    obtain ⟨l, hl⟩ := hl
+    simp only [List.foldl_nil] at hfin
+    rw [hl] at hfin; cases hfin
+  | cons t ts ih =>
+    rw [List.foldl_cons] at hfin
+    obtain ⟨hd, hb⟩ := h t (List.mem_cons_self ..)
+    rcases execTask_benign cfg flt st t x hx0 hd hb with s1 | ⟨s1, _⟩ | ⟨_, _, hr, hpl, hu, hok⟩
+    · obtain ⟨p1, p2, t', hts, hr, hpl, hu, hok⟩ :=
+        ih (execTask cfg flt st t) (fun t' ht' => h t' (List.mem_cons_of_mem _ ht')) (by rw [s1]; exact hl) hfin
+      exact ⟨t :: p1, p2, t', by rw [hts]; rfl, hr, hpl, hu, by simpa [List.foldl_cons] using hok⟩
+    · obtain ⟨l, hl⟩ := hl
+      rw [hl] at s1; cases s1
+    · exact ⟨[], ts, t, rfl, hr, hpl, hu, hok⟩
+
+/-- conversely: a completed directory task at `x` leaves a directory at `x` at the end of a benign fold -/
+theorem foldl_dir_made {cfg : Cfg} (hdry : cfg.dryRun = false) (flt : Faults) (ts : List Task) (st : Exec) (x : Path)
+    (hx0 : x ≠ [])
+    (h : ∀ t ∈ ts, (t.act = .delete → isPrefix t.rel x = false) ∧
+      (t.rel = x → faultOf cfg flt t = none ∧ (t.act = .skip ∨ t.payload = .nothing ∨ t.payload = .dir)))
+    {p1 p2 : List Task} {t : Task} (hts : ts = p1 ++ t :: p2) (hr : t.rel = x) (hpl : t.payload = .dir)
+    (hs : t.act ≠ .skip) (hnd : t.act ≠ .delete)
+    (hok : (execTask cfg flt (p1.foldl (execTask cfg flt) st) t).b.errors = (p1.foldl (execTask cfg flt) st).b.errors) :
+    (ts.foldl (execTask cfg flt) st).w.dst.get? x = some .dir := by
+  subst hts
+  rw [List.foldl_append, List.foldl_cons]
+  obtain ⟨_, w', hp, he⟩ := execTask_ok_of_errors hok
+  rw [perform_cu hs hnd hdry] at hp
+  have hdirx : (execTask cfg flt (p1.foldl (execTask cfg flt) st) t).w.dst.get? x = some .dir := by
+    rw [he, ← hr]; exact (performCU_dir hpl hp).1 (hr ▸ hx0)
+  rcases foldl_frame_benign cfg flt p2 (execTask cfg flt (p1.foldl (execTask cfg flt) st) t) x hx0
+      (fun t' ht' => h t' (List.mem_append_right _ (List.mem_cons_of_mem _ ht'))) with h2 | ⟨h2, _⟩ | ⟨⟨l, h2⟩, _⟩
+  · rw [h2]; exact hdirx
+  · rw [hdirx] at h2; cases h2
+  · rw [hdirx] at h2; cases h2
+
+/-- an element that occurs in neither prefix splits a list in one way only -/
+theorem append_cons_unique {α : Type} {a a' b b' : List α} {t : α} (h : a ++ t :: b = a' ++ t :: b')
+    (ha : t ∉ a) (ha' : t ∉ a') : a = a' ∧ b = b' := by
+  induction a generalizing a' with
+  | nil =>
+    cases a' with
+    | nil => simp only [List.nil_append, List.cons.injEq, true_and] at h; exact ⟨rfl, h⟩
+    | cons y a'' =>
+      simp only [List.nil_append, List.cons_append, List.cons.injEq] at h
+      exact absurd (h.1 ▸ List.mem_cons_self ..) ha'
+  | cons y a1 ih =>
+    cases a' with
+    | nil =>
+      simp only [List.nil_append, List.cons_append, List.cons.injEq] at h
+      exact absurd (h.1 ▸ List.mem_cons_self ..) ha
+    | cons z a'' =>
+      simp only [List.cons_append, List.cons.injEq] at h
+      obtain ⟨e1, e2⟩ := ih h.2 (fun hm => ha (List.mem_cons_of_mem _ hm)) (fun hm => ha' (List.mem_cons_of_mem _ hm))
+      exact ⟨by rw [h.1, e1], e2⟩
 
 /-! ### completion does not depend on faults elsewhere -/
 
@@ -251,18 +345,27 @@ def SparesPath (cfg : Cfg) (flt : Faults) (ts : List Task) (p : Path) : Prop :=
 theorem sparesPath_noFaults (cfg : Cfg) (ts : List Task) (p : Path) : SparesPath cfg noFaults ts p :=
   fun t _ _ => faultOf_noFaults cfg t
 
-/-- the state along the path of a selected entry just before its task, under a sparing plan -/
-theorem pre_state_along {cfg : Cfg} (flt : Faults) {scan : List SEntry} {dst : Map DNode} (n : Nat)
+/-- a non-delete task of a plan does not occur before itself -/
+theorem plan_split_not_mem {cfg : Cfg} {scan : List SEntry} {dst : Map DNode} (hu : UniqueRels scan)
+    (hdel : cfg.delete = true → ParentClosed scan ∧ dst.get? [] = none) {pre post : List Task} {t : Task}
+    (hts : plan cfg scan dst = pre ++ t :: post) (hnd : t.act ≠ .delete) : t ∉ pre := by
+  intro hm
+  have hpw := plan_pairwise cfg scan dst hu hdel
+  rw [hts, List.pairwise_append] at hpw
+  have hl := hpw.2.2 t hm t (List.mem_cons_self ..)
+  exact (hl.1 hnd).1 rfl
+
+/-- along the path of a selected entry: every task that runs before it is benign at every strict ancestor (the
+    only task there is the one of the ancestor directory's entry, which the fault plan spares) -/
+theorem pre_benign_along {cfg : Cfg} (flt : Faults) {scan : List SEntry} {dst : Map DNode}
     (hu : UniqueRels scan) (hc : ParentClosed scan) (hroot : cfg.delete = true → dst.get? [] = none)
     {e : SEntry} (he : e ∈ scanFilter cfg scan) {pre post : List Task}
     (hts : plan cfg scan dst = pre ++ planEntry cfg dst e :: post)
     (hsp : SparesPath cfg flt (plan cfg scan dst) e.rel) :
-    (∀ x, x ≠ [] → isPrefix x e.rel = true → x ≠ e.rel →
-      (pre.foldl (execTask cfg flt) (initExec dst n)).w.dst.get? x = dst.get? x ∨
-        (dst.get? x = none ∧ (pre.foldl (execTask cfg flt) (initExec dst n)).w.dst.get? x = some .dir)) ∧
-    ((pre.foldl (execTask cfg flt) (initExec dst n)).w.dst.get? e.rel = dst.get? e.rel ∨
-      (dst.get? e.rel = none ∧ (pre.foldl (execTask cfg flt) (initExec dst n)).w.dst.get? e.rel = some .dir ∧
-        e.kind = .dir)) := by
+    (∀ a ∈ pre, a.act ≠ .delete ∧ a.rel ≠ e.rel) ∧
+    ∀ x, x ≠ [] → isPrefix x e.rel = true → x ≠ e.rel →
+      ∀ a ∈ pre, (a.act = .delete → isPrefix a.rel x = false) ∧
+        (a.rel = x → faultOf cfg flt a = none ∧ (a.act = .skip ∨ a.payload = .nothing ∨ a.payload = .dir)) := by
   have hes := mem_of_mem_scanFilter he
   have hpw := plan_pairwise cfg scan dst hu (fun h => ⟨hc, hroot h⟩)
   rw [hts, List.pairwise_append] at hpw
@@ -275,29 +378,39 @@ theorem pre_state_along {cfg : Cfg} (flt : Faults) {scan : List SEntry} {dst : M
     have had : a.act ≠ .delete := fun h => hnd (hl.2 h)
     refine ⟨had, fun h => (hl.1 had).1 ?_⟩
     rw [planEntry_rel]; exact h.symm
-  constructor
-  · intro x hx hpx hxe
-    obtain ⟨d, hd, hdr, hdk⟩ := hc.anc hes hx hpx hxe
-    apply foldl_frame_benign
-    intro a ha
-    refine ⟨fun hdel => absurd hdel (hpre a ha).1, fun hr => ⟨hsp a (hmem a ha) (hr ▸ hpx), ?_⟩⟩
-    obtain ⟨s, hs, rfl⟩ := entry_of_task (hmem a ha) (hpre a ha).1
-    rw [planEntry_rel] at hr
-    have := hu.eq_of_rel (mem_of_mem_scanFilter hs) hd (hr.trans hdr.symm)
-    subst this
-    exact Or.inr (Or.inr (planEntry_payload_dir hdk))
-  · rcases foldl_frame cfg flt pre (initExec dst n) e.rel
-      (fun a ha => ⟨(hpre a ha).2, fun h => absurd h (hpre a ha).1⟩) with h | ⟨a1, a2, a3, t', ht', hp', _⟩
-    · exact Or.inl h
-    · refine Or.inr ⟨a1, a2, ?_⟩
-      obtain ⟨s, hs, rfl⟩ := entry_of_task (hmem t' ht') (hpre t' ht').1
-      rw [planEntry_rel] at hp'
-      have hne : e.rel ≠ s.rel := by
-        intro h; exact (hpre _ ht').2 (by rw [planEntry_rel]; exact h.symm)
-      exact anc_is_dir hu hc hes (mem_of_mem_scanFilter hs) a3 hp' hne
+  refine ⟨hpre, ?_⟩
+  intro x hx hpx hxe a ha
+  obtain ⟨d, hd, hdr, hdk⟩ := hc.anc hes hx hpx hxe
+  refine ⟨fun hdel => absurd hdel (hpre a ha).1, fun hr => ⟨hsp a (hmem a ha) (hr ▸ hpx), ?_⟩⟩
+  obtain ⟨s, hs, rfl⟩ := entry_of_task (hmem a ha) (hpre a ha).1
+  rw [planEntry_rel] at hr
+  have := hu.eq_of_rel (mem_of_mem_scanFilter hs) hd (hr.trans hdr.symm)
+  subst this
+  exact Or.inr (Or.inr (planEntry_payload_dir hdk))
+
+/-- the state at the OWN path of a selected entry just before its task: what the prior destination has, or a
+    directory made on the way to an entry below it -/
+theorem pre_state_own {cfg : Cfg} (flt : Faults) {scan : List SEntry} {dst : Map DNode} (n : Nat)
+    (hu : UniqueRels scan) (hc : ParentClosed scan)
+    {e : SEntry} (he : e ∈ scanFilter cfg scan) {pre post : List Task}
+    (hmem : ∀ a ∈ pre, a ∈ plan cfg scan dst) (hpre : ∀ a ∈ pre, a.act ≠ .delete ∧ a.rel ≠ e.rel) :
+    ((pre.foldl (execTask cfg flt) (initExec dst n)).w.dst.get? e.rel = dst.get? e.rel ∨
+      (dst.get? e.rel = none ∧ (pre.foldl (execTask cfg flt) (initExec dst n)).w.dst.get? e.rel = some .dir ∧
+        e.kind = .dir)) := by
+  have hes := mem_of_mem_scanFilter he
+  rcases foldl_frame cfg flt pre (initExec dst n) e.rel
+    (fun a ha => ⟨(hpre a ha).2, fun h => absurd h (hpre a ha).1⟩) with h | ⟨a1, a2, a3, t', ht', hp', _⟩
+  · exact Or.inl h
+  · refine Or.inr ⟨a1, a2, ?_⟩
+    obtain ⟨s, hs, rfl⟩ := entry_of_task (hmem t' ht') (hpre t' ht').1
+    rw [planEntry_rel] at hp'
+    have hne : e.rel ≠ s.rel := by
+      intro h; exact (hpre _ ht').2 (by rw [planEntry_rel]; exact h.symm)
+    exact anc_is_dir hu hc hes (mem_of_mem_scanFilter hs) a3 hp' hne
 
 /-- **whether the task of a selected entry completes is the same under any two fault plans that
-    spare the tasks at and above its path** -/
+    spare the tasks at and above its path** — also below a destination link that the run replaces by a directory
+    (fix 862af11): whether that replacement completed is, by induction along the path, the same under both plans -/
 theorem taskOk_transfer {cfg : Cfg} (hdry : cfg.dryRun = false) (f1 f2 : Faults) {scan : List SEntry}
     {dst : Map DNode} (n : Nat) (hu : UniqueRels scan) (hc : ParentClosed scan)
     (hroot : cfg.delete = true → dst.get? [] = none)
@@ -305,6 +418,11 @@ theorem taskOk_transfer {cfg : Cfg} (hdry : cfg.dryRun = false) (f1 f2 : Faults)
     (hs1 : SparesPath cfg f1 (plan cfg scan dst) e.rel) (hs2 : SparesPath cfg f2 (plan cfg scan dst) e.rel)
     (hok : TaskOk cfg f1 (plan cfg scan dst) (initExec dst n) (planEntry cfg dst e)) :
     TaskOk cfg f2 (plan cfg scan dst) (initExec dst n) (planEntry cfg dst e) := by
+  -- strong induction on the length of the entry's path
+  generalize hk : e.rel.length = k
+  induction k using Nat.strongRecOn generalizing e with
+  | _ k ih =>
+  have hdelp : cfg.delete = true → ParentClosed scan ∧ dst.get? [] = none := fun h => ⟨hc, hroot h⟩
   obtain ⟨pre, post, hts, hok⟩ := hok
   refine ⟨pre, post, hts, ?_⟩
   have hmemt : planEntry cfg dst e ∈ plan cfg scan dst := planEntry_mem_plan he
@@ -324,26 +442,76 @@ theorem taskOk_transfer {cfg : Cfg} (hdry : cfg.dryRun = false) (f1 f2 : Faults)
   · have hnd : (planEntry cfg dst e).act ≠ .delete := planEntry_act_ne_delete _ _ _
     rw [perform_cu hs hnd hdry] at hp1 ⊢
     have hrel : (planEntry cfg dst e).rel ≠ [] := by rw [planEntry_rel]; exact hne
-    obtain ⟨A1, O1⟩ := pre_state_along f1 n hu hc hroot he hts hs1
-    obtain ⟨A2, O2⟩ := pre_state_along f2 n hu hc hroot he hts hs2
+    have hmem : ∀ a ∈ pre, a ∈ plan cfg scan dst := fun a ha => by rw [hts]; exact List.mem_append_left _ ha
+    obtain ⟨hpre, B1⟩ := pre_benign_along f1 hu hc hroot he hts hs1
+    obtain ⟨_, B2⟩ := pre_benign_along f2 hu hc hroot he hts hs2
+    have O1 := pre_state_own f1 n hu hc he (post := post) hmem hpre
+    have O2 := pre_state_own f2 n hu hc he (post := post) hmem hpre
     rcases performCU_necessary hp1 hrel with hnot | ⟨hanc, hown⟩
     · exact ⟨_, by unfold performCU; rw [hnot]⟩
     · rw [planEntry_rel] at hanc
-      -- transfer "absent or directory" from run 1 to run 2 through the prior destination
-      have xfer : ∀ x (s1 s2 : Option DNode),
-          (s1 = dst.get? x ∨ (dst.get? x = none ∧ s1 = some .dir)) →
-          (s2 = dst.get? x ∨ (dst.get? x = none ∧ s2 = some .dir)) →
-          (s1 = none ∨ s1 = some .dir) → (s2 = none ∨ s2 = some .dir) := by
-        intro x s1 s2 h1 h2 h
-        rcases h2 with h2 | ⟨_, h2⟩
-        · rcases h1 with h1 | ⟨h1, _⟩
-          · rw [h2, ← h1]; exact h
-          · rw [h2, h1]; exact Or.inl rfl
-        · exact Or.inr h2
       apply performCU_sufficient hrel
-      · rw [planEntry_rel]
+      · -- the strict ancestors: absent or directories in run 2 as in run 1
+        rw [planEntry_rel]
         intro x hx hpx hxe
-        exact xfer x _ _ (A1 x hx hpx hxe) (A2 x hx hpx hxe) (hanc x hx hpx hxe)
+        have A1 := foldl_frame_benign cfg f1 pre (initExec dst n) x hx (B1 x hx hpx hxe)
+        have A2 := foldl_frame_benign cfg f2 pre (initExec dst n) x hx (B2 x hx hpx hxe)
+        have h1 := hanc x hx hpx hxe
+        rw [show (initExec dst n).w.dst = dst from rfl] at A1 A2
+        cases hg : dst.get? x with
+        | none =>
+          rcases A2 with a2 | ⟨_, a2⟩ | ⟨_, a2⟩
+          · rw [a2, hg]; exact Or.inl rfl
+          · exact Or.inr a2
+          · exact Or.inr a2
+        | some v =>
+          cases v with
+          | dir =>
+            rcases A2 with a2 | ⟨a2, _⟩ | ⟨⟨l, a2⟩, _⟩
+            · rw [a2, hg]; exact Or.inr rfl
+            · rw [hg] at a2; cases a2
+            · rw [hg] at a2; cases a2
+          | file m =>
+            exfalso
+            rcases A1 with a1 | ⟨a1, _⟩ | ⟨⟨l, a1⟩, _⟩
+            · rw [a1, hg] at h1; rcases h1 with h1 | h1 <;> cases h1
+            · rw [hg] at a1; cases a1
+            · rw [hg] at a1; cases a1
+          | symlink l =>
+            -- run 1 replaced the link (else `e` could not have completed); by induction so does run 2
+            have hdir1 : (pre.foldl (execTask cfg f1) (initExec dst n)).w.dst.get? x = some .dir := by
+              rcases A1 with a1 | ⟨a1, _⟩ | ⟨_, a1⟩
+              · rw [a1, hg] at h1; rcases h1 with h1 | h1 <;> cases h1
+              · rw [hg] at a1; cases a1
+              · exact a1
+            obtain ⟨p1, p2, t, hsplit, htr, htp, htu, htok⟩ :=
+              foldl_link_replaced cfg f1 pre (initExec dst n) x hx (B1 x hx hpx hxe) ⟨l, hg⟩ hdir1
+            have htmem : t ∈ pre := by rw [hsplit]; simp
+            have htnd : t.act ≠ .delete := by rw [htu]; simp
+            have htns : t.act ≠ .skip := by rw [htu]; simp
+            obtain ⟨dx, hdx, rfl⟩ := entry_of_task (hmem t htmem) htnd
+            rw [planEntry_rel] at htr
+            have hplan : plan cfg scan dst = p1 ++ planEntry cfg dst dx :: (p2 ++ planEntry cfg dst e :: post) := by
+              rw [hts, hsplit]; simp
+            have hok1 : TaskOk cfg f1 (plan cfg scan dst) (initExec dst n) (planEntry cfg dst dx) :=
+              ⟨p1, _, hplan, htok⟩
+            have hlen : dx.rel.length < k := by
+              rw [htr, ← hk]
+              have h1 := isPrefix_length hpx
+              rcases Nat.lt_or_ge x.length e.rel.length with h | h
+              · exact h
+              · exact absurd (isPrefix_eq_of_length hpx h) hxe
+            have hsx1 : SparesPath cfg f1 (plan cfg scan dst) dx.rel := fun a ha hp =>
+              hs1 a ha (isPrefix_trans hp (htr ▸ hpx))
+            have hsx2 : SparesPath cfg f2 (plan cfg scan dst) dx.rel := fun a ha hp =>
+              hs2 a ha (isPrefix_trans hp (htr ▸ hpx))
+            obtain ⟨q1, q2, hq, hqok⟩ := ih dx.rel.length hlen hdx (htr ▸ hx) hsx1 hsx2 hok1 rfl
+            -- the split of the plan at that task is the one we know
+            obtain ⟨e1, _⟩ := append_cons_unique (hplan.symm.trans hq)
+              (plan_split_not_mem hu hdelp hplan htnd) (plan_split_not_mem hu hdelp hq htnd)
+            subst e1
+            exact Or.inr (foldl_dir_made hdry f2 pre (initExec dst n) x hx (B2 x hx hpx hxe) hsplit
+              (by rw [planEntry_rel]; exact htr) htp htns htnd hqok)
       · unfold OwnOK at hown ⊢
         cases hpl : (planEntry cfg dst e).payload with
         | nothing => trivial
@@ -354,29 +522,54 @@ theorem taskOk_transfer {cfg : Cfg} (hdry : cfg.dryRun = false) (f1 f2 : Faults)
             intro s h; rcases h with h | ⟨a, b, _⟩
             · exact Or.inl h
             · exact Or.inr ⟨a, b⟩
-          exact xfer e.rel _ _ (w1' O1) (w1' O2) hown
+          -- transfer "absent or directory" from run 1 to run 2 through the prior destination
+          have xfer : ∀ (s1 s2 : Option DNode),
+              (s1 = dst.get? e.rel ∨ (dst.get? e.rel = none ∧ s1 = some .dir)) →
+              (s2 = dst.get? e.rel ∨ (dst.get? e.rel = none ∧ s2 = some .dir)) →
+              (s1 = none ∨ s1 = some .dir) → (s2 = none ∨ s2 = some .dir) := by
+            intro s1 s2 h1 h2 h
+            rcases h2 with h2 | ⟨_, h2⟩
+            · rcases h1 with h1 | ⟨h1, _⟩
+              · rw [h2, ← h1]; exact h
+              · rw [h2, h1]; exact Or.inl rfl
+            · exact Or.inr h2
+          rcases hown with hown | hown | ⟨hupd, l, hl⟩
+          · rcases xfer _ _ (w1' O1) (w1' O2) (Or.inl hown) with h | h
+            · exact Or.inl h
+            · exact Or.inr (Or.inl h)
+          · rcases xfer _ _ (w1' O1) (w1' O2) (Or.inr hown) with h | h
+            · exact Or.inl h
+            · exact Or.inr (Or.inl h)
+          · -- a link in run 1: it is the prior destination's, and so it is in run 2
+            have hd1 : dst.get? e.rel = some (.symlink l) := by
+              rcases w1' O1 with h | ⟨h, h'⟩
+              · rw [← h]; exact hl
+              · rw [h'] at hl; cases hl
+            rcases w1' O2 with h | ⟨h, _⟩
+            · exact Or.inr (Or.inr ⟨hupd, l, by rw [h]; exact hd1⟩)
+            · rw [hd1] at h; cases h
         | symlink text =>
           simp only [hpl, planEntry_rel] at hown ⊢
-          have hk : e.kind ≠ .dir := fun h => by rw [planEntry_payload_dir h] at hpl; cases hpl
-          rcases O1 with o1 | ⟨_, _, k⟩
-          · rcases O2 with o2 | ⟨_, _, k⟩
+          have hk' : e.kind ≠ .dir := fun h => by rw [planEntry_payload_dir h] at hpl; cases hpl
+          rcases O1 with o1 | ⟨_, _, k'⟩
+          · rcases O2 with o2 | ⟨_, _, k'⟩
             · rw [o2, ← o1]; exact hown
-            · exact absurd k hk
-          · exact absurd k hk
-        | file m k =>
+            · exact absurd k' hk'
+          · exact absurd k' hk'
+        | file m k' =>
           simp only [hpl, planEntry_rel] at hown ⊢
-          have hk : e.kind ≠ .dir := fun h => by rw [planEntry_payload_dir h] at hpl; cases hpl
-          rcases O1 with o1 | ⟨_, _, k⟩
-          · rcases O2 with o2 | ⟨_, _, k⟩
+          have hk' : e.kind ≠ .dir := fun h => by rw [planEntry_payload_dir h] at hpl; cases hpl
+          rcases O1 with o1 | ⟨_, _, k''⟩
+          · rcases O2 with o2 | ⟨_, _, k''⟩
             · rw [o2, ← o1]; exact hown
-            · exact absurd k hk
-          · exact absurd k hk
-      · intro m k hpl hcr
+            · exact absurd k'' hk'
+          · exact absurd k'' hk'
+      · intro m k' hpl hcr
         rw [planEntry_rel]
-        have hk : e.kind ≠ .dir := fun h => by rw [planEntry_payload_dir h] at hpl; cases hpl
-        rcases O2 with o2 | ⟨_, _, k⟩
-        · rw [o2]; exact planEntry_create_none hk hcr
-        · exact absurd k hk
+        have hk' : e.kind ≠ .dir := fun h => by rw [planEntry_payload_dir h] at hpl; cases hpl
+        rcases O2 with o2 | ⟨_, _, k''⟩
+        · rw [o2]; exact planEntry_create_none hk' hcr
+        · exact absurd k'' hk'
       · -- registered first paths hold regular files (the hard-link map invariant)
         have hl : LinkOK cfg (plan cfg scan dst) (pre.foldl (execTask cfg f2) (initExec dst n)).w
             (planEntry cfg dst e :: post) := by
